@@ -31,7 +31,7 @@ def s_case(draw, tier):
     baths = [draw(tempogen.bath_spec(s["d"], rotated=False, custom_weight=0.0,
                                      temps=[0.0, 0.5, 5.0], zetas=[1.0, 2.0, 3.0])) for s in mf["systems"]]
     return {"mf": mf, "par": p, "baths": baths, "t0": draw(st.sampled_from([0.0, 1.37, -0.8])),
-            "unique": draw(st.booleans())}
+            "unique": draw(st.booleans()), "sampled": draw(st.booleans())}
 
 
 def run_case(case):
@@ -43,18 +43,20 @@ def run_case(case):
     rhos = mfgen.initial_states(mf)
     a0 = complex(*mf["a0"])
     baths = [tempogen.build_bath(b, p, s["d"])[0] for b, s in zip(case["baths"], mf["systems"])]
-    par = tempogen.build_params(p)
+    sl = None if case.get("sampled") else 256      # sampled (dt/4, 3dt/4) or integrated system propagators
+    par = tempogen.build_params(p, subdiv_limit=sl)
     t_end = tempogen.end_time(p, t0)
     td = mfgen.eom_time_dependent(mf)
     out.nontrivial = td or t0 != 0
     out.label("eom-time-dependent" if td else "eom-autonomous", "t0!=0" if t0 != 0 else "t0=0",
               f"systems={len(rhos)}", "linear-only" if mf["eom"]["linear_only"] else "general-eom",
               "field-independent-H" if all(s["g"] == 0 for s in mf["systems"]) else "field-dependent-H",
-              "cutoff-active" if tempogen.cutoff_active(p) else "full-memory")
+              "cutoff-active" if tempogen.cutoff_active(p) else "full-memory",
+              "sampled-propagators" if case.get("sampled") else "integrated-propagators")
     d1 = oqupy.MeanFieldTempo(mfs, baths, par, rhos, a0, start_time=t0, unique=case["unique"]).compute(
         t_end, progress_type="silent")
     pts = [oqupy.pt_tempo_compute(b, t0, t_end, par, unique=case["unique"], progress_type="silent") for b in baths]
-    d2 = oqupy.compute_dynamics_with_field(mfs, a0, pts, initial_state_list=rhos, start_time=t0,
+    d2 = oqupy.compute_dynamics_with_field(mfs, a0, pts, initial_state_list=rhos, start_time=t0, subdiv_limit=sl,
                                            progress_type="silent")
     times = t0 + dt * np.arange(N + 1)
     f1, f2 = np.array(d1.fields), np.array(d2.fields)
@@ -87,7 +89,7 @@ def run_case(case):
                             tempogen.trunc_tol(p, 100.0), f"system {i}")
     # (v) record_all False
     d3 = oqupy.compute_dynamics_with_field(mfs, a0, pts, initial_state_list=rhos, start_time=t0, record_all=False,
-                                           progress_type="silent")
+                                           subdiv_limit=sl, progress_type="silent")
     out.check_close("record_all=False/field", np.array(d3.fields)[-1:], f2[-1:], 1e-12 * amax)
     for i, (x, y) in enumerate(zip(d3.system_dynamics, d2.system_dynamics)):
         out.check_close("record_all=False/state", np.array(x.states)[-1], np.array(y.states)[-1], 1e-12)
